@@ -511,14 +511,49 @@ def sig_family():
     add("homo_r1", "fn(i32) -> m1::Error", "a: i32", "m1::Error")
     add("homo_r2", "fn(i32) -> m2::Error", "a: i32", "m2::Error")
     add("ref", "fn(&'static i32) -> i32", "a: &'static i32", "i32", judged=False)   # lifetime spelling only: exercised, not judged
+    # near misses in the printed type name: const-generic arguments (a char argument prints with apostrophes,
+    # like a lifetime), array lengths, a tuple against two parameters, generic arguments, trait objects,
+    # a name that is a prefix of another
+    add("cg_m", "fn(Q<'m'>) -> i32", "a: Q<'m'>", "i32")
+    add("cg_s", "fn(Q<'s'>) -> i32", "a: Q<'s'>", "i32")
+    add("cg_3", "fn(N<3>) -> i32", "a: N<3>", "i32")
+    add("cg_4", "fn(N<4>) -> i32", "a: N<4>", "i32")
+    add("cg_t", "fn(B<true>) -> i32", "a: B<true>", "i32")
+    add("cg_f", "fn(B<false>) -> i32", "a: B<false>", "i32")
+    add("arr4", "fn([u8; 4]) -> i32", "a: [u8; 4]", "i32")
+    add("arr8", "fn([u8; 8]) -> i32", "a: [u8; 8]", "i32")
+    add("tup2", "fn((i32, i32)) -> i32", "a: (i32, i32)", "i32")
+    add("vec_i", "fn(Vec<i32>) -> i32", "a: Vec<i32>", "i32")
+    add("vec_u", "fn(Vec<u32>) -> i32", "a: Vec<u32>", "i32")
+    add("dyn_a", "fn(&dyn TA) -> i32", "a: &dyn TA", "i32")
+    add("dyn_b", "fn(&dyn TB) -> i32", "a: &dyn TB", "i32")
+    add("case_U2", "fn(Foo2) -> i32", "a: Foo2", "i32")
     return F
+
+
+def split_params(params):
+    """split a parameter list at top-level commas"""
+    out, depth, cur = [], 0, ""
+    for ch in params:
+        if ch in "([<":
+            depth += 1
+        elif ch in ")]>":
+            depth -= 1
+        if ch == "," and depth == 0:
+            out.append(cur.strip())
+            cur = ""
+        else:
+            cur += ch
+    if cur.strip():
+        out.append(cur.strip())
+    return out
 
 
 def default_value(ret):
     return {"": "()", "i32": "1", "u32": "1", "i64": "1", "bool": "true", "Option<i32>": "Some(1)", "String": "String::new()", "m1::Error": "m1::Error", "m2::Error": "m2::Error"}[ret]
 
 
-def gen_c09_program():
+def gen_c09_program(part=0, nparts=1):
     F = sig_family()
     n = len(F)
     out = ['// generated by /verif/lib/e4.py (C09: signature pairs)',
@@ -527,6 +562,11 @@ def gen_c09_program():
            'use std::panic::{catch_unwind, AssertUnwindSafe};',
            '#[derive(Clone, Copy)] pub struct Foo(pub i32);',
            '#[derive(Clone, Copy)] pub struct foo(pub i32);',
+           '#[derive(Clone, Copy)] pub struct Foo2(pub i32);',
+           '#[derive(Clone, Copy)] pub struct Q<const U: char>(pub i32);',
+           '#[derive(Clone, Copy)] pub struct N<const K: usize>(pub i32);',
+           '#[derive(Clone, Copy)] pub struct B<const F: bool>(pub i32);',
+           'pub trait TA { fn a(&self) -> i32 { 1 } } pub trait TB { fn b(&self) -> i32 { 2 } }',
            'pub mod m1 { #[derive(Clone, Copy)] pub struct Config(pub i32); pub struct Error; }',
            'pub mod m2 { #[derive(Clone, Copy)] pub struct Config(pub i64); pub struct Error; }',
            'fn class(p: &(dyn std::any::Any + Send)) -> &\'static str { let m = p.downcast_ref::<String>().cloned().or_else(|| p.downcast_ref::<&str>().map(|s| s.to_string())).unwrap_or_default(); if m.contains("Signature mismatch") { "MISMATCH" } else if m.contains("Pointer must not be null") { "NULL" } else { "OTHER" } }',
@@ -544,16 +584,20 @@ def gen_c09_program():
     out.append("fn main() {")
     # form A: func! x func!, every ordered pair
     for i, fi in enumerate(F):
+        if i % nparts != part:
+            continue
         for j, fj in enumerate(F):
             out.append(f"    {{ let tp = t{i} as {fi['ty']} as *const (); let before = bytes(tp); let mut during = None;"
                        f" let r = catch_unwind(AssertUnwindSafe(|| {{ let mut inj = InjectorPP::new(); inj.when_called(injectorpp::func!(t{i}, {fi['ty']})).will_execute_raw(injectorpp::func!(f{j}, {fj['ty']})); during = Some(bytes(tp)); }}));"
                        f" report(\"A\", {i}, {j}, r, before, during, bytes(tp)); }}")
     # form B: closure! as replacement (safe Rust-ABI types only)
     for i, fi in enumerate(F):
+        if i % nparts != part:
+            continue
         for j, fj in enumerate(F):
             if not fj["closure"] or "'static" in fj["ty"]:
                 continue
-            args = ", ".join(f"_{k}: {p.split(':', 1)[1].strip()}" for k, p in enumerate(fj["params"].split(", ")) if p)
+            args = ", ".join(f"_{k}: {p.split(':', 1)[1].strip()}" for k, p in enumerate(split_params(fj["params"])) if p)
             ret = f" -> {fj['ret']}" if fj["ret"] else ""
             body = default_value(fj["ret"])
             out.append(f"    {{ let tp = t{i} as {fi['ty']} as *const (); let before = bytes(tp); let mut during = None;"
@@ -561,6 +605,8 @@ def gen_c09_program():
                        f" report(\"B\", {i}, {j}, r, before, during, bytes(tp)); }}")
     # form E: checked x unchecked mixes and null pointers, per type
     for i, fi in enumerate(F):
+        if i % nparts != part:
+            continue
         out.append(f"    {{ let tp = t{i} as {fi['ty']} as *const (); let before = bytes(tp); let mut during = None;"
                    f" let r = catch_unwind(AssertUnwindSafe(|| {{ let mut inj = InjectorPP::new(); inj.when_called(injectorpp::func!(t{i}, {fi['ty']})).will_execute_raw(unsafe {{ injectorpp::func_unchecked!(f{i}) }}); during = Some(bytes(tp)); }}));"
                    f" report(\"E1\", {i}, {i}, r, before, during, bytes(tp)); }}")
@@ -773,21 +819,25 @@ def c09(tier, mi):
 def c09_profile(tier, mi, release):
     rlib, deps = real_rlib(release)
     sfx = "_rel" if release else ""
-    src1, F = gen_c09_program()
+    NPARTS = 8
+    srcs1 = [gen_c09_program(k, NPARTS)[0] for k in range(NPARTS)]
+    F = sig_family()
     arms_all = parse_arms(os.path.join(mi["repo"], "src", "interface", "macros.rs"))
     seen_arms = {}
     for a in arms_all:
         seen_arms.setdefault(arm_name(a), a)
     arms = list(seen_arms.values())
     src2, items, kinds, shapes = gen_c09_macro_program(arms)
-    built = build_many({"c09_pairs" + sfx: src1, "c09_macros" + sfx: src2, "c09_context" + sfx: gen_c09_context_program()}, rlib, deps)
+    progs = {f"c09_pairs{k}{sfx}": srcs1[k] for k in range(NPARTS)}
+    progs.update({"c09_macros" + sfx: src2, "c09_context" + sfx: gen_c09_context_program()})
+    built = build_many(progs, rlib, deps)
     prefixes = c09_prefixes()
     for name, (ok, err, exe) in built.items():
         if not ok:
             raise MachineryError(f"generated program {name} does not compile against this tree (a well-typed use of the public macros is rejected?): " + err[-1500:])
     viols = []
     lines = []
-    for name in ("c09_pairs" + sfx, "c09_macros" + sfx, "c09_context" + sfx):
+    for name in list(progs):
         rc, so, se = run_many([[built[name][2]]], timeout=120)[0]
         if rc != 0:
             viols.append({"key": f"{name}:process-died", "what": f"the pair program died with status {rc}: {se[-300:]}", "engine": "e4", "args": ["c09"], "case": {"program": name, "stdout_tail": so[-400:]}})
